@@ -50,6 +50,19 @@ func runC09(c *sim.Ctx) *sim.Violation {
 		frame, fm = ref.Encode(a)
 		typ = a.TypeName()
 	}
+	if t.Bool(1, 4) {
+		// one or two properties that MQTT defines but does not allow in this packet:
+		// the base frame is then not valid, but (a)-(d) do not depend on that - a
+		// frame that ends inside a field, an over-long variable byte integer, a
+		// boolean property of 2..255 and an undefined identifier are rejected
+		// wherever they stand
+		b := a.Clone()
+		if gen.Foreign(t, b, 1+t.Int(2)) > 0 {
+			a = b
+			frame, fm = ref.Encode(a)
+			c.Count("probe.base-frame-with-a-property-foreign-to-its-packet-type")
+		}
+	}
 	h := fm[1].End
 	judge := func(clause, what string, f []byte, how string) *sim.Violation {
 		o := c09Deliver(c, f)
